@@ -280,20 +280,37 @@ fn run_c12(w: &mut W) {
         }
         // coarser: long buffers, offending byte near block boundaries and near the end
         if w.tier >= Tier::Small {
-            for &l in &[101usize, 127, 128, 129, 255, 256, 257, 300, 4056, 4095, 4096, 4097, 4136] {
-                let base: Vec<u8> = (0..l).map(|i| class_filler(c, i)).collect();
-                let mut qs: Vec<usize> = vec![0, 1, 7, 8, 15, 16, 31, 32, 33, 63, 64, 65, l / 2, l - 33, l - 32, l - 17, l - 16, l - 9, l - 8, l - 2, l - 1];
-                qs.retain(|q| *q < l);
-                for q in qs {
-                    for &v in &gen::BOUNDARY {
-                        idx += 1;
-                        if idx % n != shard {
-                            continue;
+            // three filler styles: the mixed class filler (contains HTAB / obs-text where legal), plain
+            // letters, and obs-text-rich without any byte below 0x20 (unrolled "whole chunk is clean"
+            // fast paths bail out on the first kind and are only entered with the other two)
+            for style in 0..3usize {
+                for &l in &[101usize, 127, 128, 129, 160, 255, 256, 257, 300, 4056, 4095, 4096, 4097, 4136] {
+                    let base: Vec<u8> = (0..l)
+                        .map(|i| match (style, c) {
+                            (0, _) => class_filler(c, i),
+                            (1, _) => b'a' + (i % 26) as u8,
+                            (_, Class::Name) => [b'-', b'Z', b'x'][i % 3],
+                            (_, _) => [0xFFu8, b'~', 0xA0][i % 3],
+                        })
+                        .collect();
+                    let mut qs: Vec<usize> = if l <= 300 && w.tier >= Tier::Quick {
+                        (0..l).collect()
+                    } else {
+                        vec![0, 1, 7, 8, 15, 16, 31, 32, 33, 63, 64, 65, 95, 96, 97, 127, 128, 129, l / 2, l - 33, l - 32, l - 17, l - 16, l - 9, l - 8, l - 2, l - 1]
+                    };
+                    qs.retain(|q| *q < l);
+                    qs.dedup();
+                    for q in qs {
+                        for &v in &gen::BOUNDARY {
+                            idx += 1;
+                            if idx % n != shard {
+                                continue;
+                            }
+                            let mut b = base.clone();
+                            b[q] = v;
+                            w.st.distinct_case(hash_bytes(sc.idx() as u64, &b));
+                            scan_case(w, sc, &b, if idx / n % 3 == 0 { Place::Start } else { Place::End });
                         }
-                        let mut b = base.clone();
-                        b[q] = v;
-                        w.st.distinct_case(hash_bytes(sc.idx() as u64, &b));
-                        scan_case(w, sc, &b, if idx / n % 3 == 0 { Place::Start } else { Place::End });
                     }
                 }
             }
